@@ -7,9 +7,11 @@
 //   std::chrono::system_clock -> std::chrono::verif_system_clock (virtual time, 1 tick = 1 ms)
 //
 // Case kinds (grammar shared with lean/Drivers/C12.lean):
-//   case <n> man                 manual mode: sleep/sched/ge/drain/cancel/cancelx/remove/dump/destroy with explicit ticks
-//   case <n> run                 single-thread start(awaitable) under virtual time, scripted sleeper coroutines
-//   case <n> ivl <dur> <k> <mode> interval() generator + stop token
+//   case <n> man                 manual mode: sleep/sched/ge/drain/cancel/cancelx/remove/dump/destroy with explicit ticks,
+//                                plus the interval() generator: ivl <dur> <now> / next <now> / stop (std::stop_token)
+//   case <n> run <t0>            single-thread start(awaitable) under virtual time, scripted sleeper coroutines (co ... / go)
+//   case <n> thr | pool <k>      worker in a real std::thread / on a real thread_pool, virtual clock driven by `adv <t>`
+//   case <n> stoprace <tp>       ~scheduler() forced between the worker's stop check and its wait_until
 #include <algorithm>
 #include <atomic>
 #include <cassert>
@@ -659,8 +661,8 @@ static void run_stoprace(std::istream &in, long long tp) {
             vt::stall_clock = false;
             --vt::blocked;
             vt::Gcv.notify_all();
-            // ~scheduler returns promptly unless the notification was lost; give it 3 s of real time
-            vt::Gcv.wait_for(g, std::chrono::seconds(3), [&] { return done.load(); });
+            // ~scheduler returns promptly unless the notification was lost; give it 15 s of real time
+            vt::Gcv.wait_for(g, std::chrono::seconds(15), [&] { return done.load(); });
         }
         bool prompt = done;
         if (!prompt) {
